@@ -4,9 +4,14 @@ go 1.23
 
 require (
 	github.com/jsightapi/jsight-schema-go-library v0.0.0
+	golang.org/x/tools v0.29.0
 	pgregory.net/rapid v1.3.0
 )
 
-require github.com/lucasjones/reggen v0.0.0-20200904144131-37ba4fa293bb // indirect
+require (
+	github.com/lucasjones/reggen v0.0.0-20200904144131-37ba4fa293bb // indirect
+	golang.org/x/mod v0.22.0 // indirect
+	golang.org/x/sync v0.10.0 // indirect
+)
 
 replace github.com/jsightapi/jsight-schema-go-library => /repo
